@@ -53,6 +53,31 @@ interp.to_strz = _to_strz_ext
 to_strz = _to_strz_ext
 
 
+def char_boundary(s, i):
+    """byte mode (one z3 character = one byte of the UTF-8 text): index i is a character boundary of s"""
+    i = z3.IntVal(i) if isinstance(i, int) else i
+    c = z3.StrToCode(z3.SubString(s, i, 1))
+    # (an all-ASCII string has a boundary everywhere: logically redundant, but it lets the solver close the obligations of a
+    # parser that starts with an is_ascii() guard without reasoning about single bytes)
+    ascii_star = z3.Star(z3.Range(chr(0), chr(0x7f)))
+    root = s
+    while z3.is_app(root) and root.decl().kind() == z3.Z3_OP_SEQ_EXTRACT:
+        root = root.arg(0)
+    hints = [z3.InRe(s, ascii_star)] + ([z3.InRe(root, ascii_star)] if root is not s else [])
+    return z3.Or(i <= 0, i >= z3.Length(s), z3.Not(z3.And(c >= 0x80, c <= 0xBF)), *hints)
+
+
+def utf8_regex():
+    """the byte strings that are valid UTF-8 (1- to 3-byte characters), one z3 character per byte"""
+    R = lambda a, b: z3.Range(chr(a), chr(b))
+    cont = R(0x80, 0xBF)
+    one = z3.Union(R(0x20, 0x7E), z3.Re("\n"))
+    two = z3.Concat(R(0xC2, 0xDF), cont)
+    three = z3.Union(z3.Concat(z3.Re(chr(0xE0)), R(0xA0, 0xBF), cont), z3.Concat(R(0xE1, 0xEC), cont, cont),
+                     z3.Concat(z3.Re(chr(0xED)), R(0x80, 0x9F), cont), z3.Concat(R(0xEE, 0xEF), cont, cont))
+    return z3.Star(z3.Union(one, two, three))
+
+
 def days_in_month(y, m):
     leap = z3.Or(z3.And(y % 4 == 0, y % 100 != 0), y % 400 == 0)
     return z3.If(z3.Or(m == 1, m == 3, m == 5, m == 7, m == 8, m == 10, m == 12), 31,
@@ -318,9 +343,13 @@ class StructMachine(Machine):
                 en = en + 1
             self.oblige(fr, guard, z3.And(0 <= z3.IntVal(st) if isinstance(st, int) else 0 <= st, st <= en, en <= z3.Length(s)),
                         "slice [a..b] out of range (line %s)" % idx.get("line", "?"))
+            if getattr(self, "byte_mode", False):
+                self.oblige(fr, guard, z3.And(char_boundary(s, st), char_boundary(s, en)), "slice [a..b] not on a character boundary")
             return mk(z3.SubString(s, st, en - st))
         self.oblige(fr, guard, z3.And(0 <= z3.IntVal(st) if isinstance(st, int) else 0 <= st, st <= z3.Length(s)),
                     "slice [a..] out of range (line %s)" % idx.get("line", "?"))
+        if getattr(self, "byte_mode", False):
+            self.oblige(fr, guard, char_boundary(s, st), "slice [a..] not on a character boundary")
         return mk(z3.SubString(s, st, z3.Length(s) - st))
 
     def ev_index(self, e, fr, guard):
